@@ -13,7 +13,48 @@ pub struct HCase {
     pub style: &'static str,
 }
 
+/// dummy rows that carry (large) weights on a plain column, real rows that all want another plain column, every other column
+/// mandatory: an alternating tree rooted at a dummy row then consists of dummy rows only, and the only allowed column outside
+/// the tree already carries a large column label (the minimal slack of the label update exceeds every initial row label)
+fn gen_dummy_tree(r: &mut Rng) -> HCase {
+    let d = r.range(2, 3);
+    let reals = r.range(d, d + 1);
+    let n = d + reals;
+    let big = *r.pick(&[7i32, 49997, 50000, (1 << 20) - 1, 1000]);
+    let big2 = if r.chance(1, 2) { big } else { *r.pick(&[5i32, 49999, (1 << 20) - 1]) };
+    let mut cols: Vec<usize> = (0..n).collect();
+    r.shuffle(&mut cols);
+    // plain columns: d of them (cols[0..d]); real rows want cols[0], dummy rows want cols[1]; the rest is mandatory
+    let mut my = vec![true; n];
+    for c in cols.iter().take(d) {
+        my[*c] = false;
+    }
+    let dummy_first = r.chance(2, 3);
+    let mut dx = vec![false; n];
+    for i in 0..d {
+        dx[if dummy_first { i } else { n - 1 - i }] = true;
+    }
+    let noise = r.chance(1, 3);
+    let mut w = vec![vec![0i32; n]; n];
+    for x in 0..n {
+        for y in 0..n {
+            if noise {
+                w[x][y] = r.below(3) as i32;
+            }
+        }
+        if dx[x] {
+            w[x][cols[1]] = big;
+        } else {
+            w[x][cols[0]] = big2;
+        }
+    }
+    HCase { w, dx, my, sx: vec![false; n], sy: vec![false; n], style: "dummytree" }
+}
+
 pub fn gen_case(r: &mut Rng, max_dim: usize) -> HCase {
+    if max_dim >= 6 && r.chance(1, 10) {
+        return gen_dummy_tree(r);
+    }
     let a = r.range(1, max_dim); // number of active rows = active columns
     let extra_x = if r.chance(1, 2) { r.range(0, 3) } else { 0 };
     let extra_y = if r.chance(1, 2) { r.range(0, 3) } else { 0 };
